@@ -89,8 +89,20 @@ Fixpoint unknowns (pol : policy) (s : stmt) : list string :=
   | _ => []
   end.
 
+(** calls resolved to a function the table does not hold *)
+Fixpoint missing_callees (pol : policy) (funs : funtab) (s : stmt) : list string :=
+  match s with
+  | Call loc m => match effect_of pol loc m with
+                  | Some (ECall fn) => match lookup_fun funs fn with Some _ => [] | None => ["call of " ++ fn ++ ", which is not an analysed function"] end
+                  | _ => []
+                  end
+  | Seq a b | Branch a b => missing_callees pol funs a ++ missing_callees pol funs b
+  | Loop a => missing_callees pol funs a
+  | _ => []
+  end.
+
 Definition diagnose (pol : policy) (funs : funtab) (entries : list string) : list string :=
-  flat_map (fun p => map (fun u => fst p ++ ": " ++ u) (unknowns pol (snd p))) (reachable_funs pol funs entries).
+  flat_map (fun p => map (fun u => fst p ++ ": " ++ u) (unknowns pol (snd p) ++ missing_callees pol funs (snd p))) (reachable_funs pol funs entries).
 
 (** * Inferred guards.
 
